@@ -253,7 +253,7 @@ class Analyzer:
                     continue
                 site = None
                 if isinstance(n, ast.For) and self.is_set(n.iter, fi):
-                    site = ("for", n, self.classify_for(n, fi))
+                    site = ("for", n, self.classify_for(n, fi, parents, path))
                 elif isinstance(n, ast.comprehension) and self.is_set(n.iter, fi):
                     comp = parents.get(n)
                     site = ("comprehension", comp, self.classify_comp(comp, parents, fi))
@@ -265,9 +265,11 @@ class Analyzer:
                         ok = isinstance(par, ast.Call) and (par.func.id if isinstance(par.func, ast.Name) else getattr(par.func, "attr", None)) in CANONICAL
                         if nm == "dict":
                             ok = False
+                        if not ok and self._message_only(n, parents):
+                            ok = True
                         site = (f"{nm}(set)", n, "canonical" if ok else "leak")
                     elif isinstance(f, ast.Attribute) and f.attr == "join" and n.args and self.is_set(n.args[0], fi):
-                        site = ("join(set)", n, "leak")
+                        site = ("join(set)", n, "canonical" if self._message_only(n, parents) else "leak")
                 elif isinstance(n, ast.Starred) and self.is_set(n.value, fi):
                     par = parents.get(n)
                     ok = isinstance(par, ast.Call) and (par.func.id if isinstance(par.func, ast.Name) else getattr(par.func, "attr", None)) in (CANONICAL | {"union", "intersection", "update", "difference"})
@@ -286,9 +288,63 @@ class Analyzer:
                     })
         return self.sites
 
+    LOG_NAMES = ("logger", "log", "LOGGER", "logging", "timing_logger")
+
+    def _is_log_call(self, v):
+        """`logger.warning(...)`, `self.log.info(...)`, `warnings.warn(...)`: produces log text only"""
+        if not (isinstance(v, ast.Call) and isinstance(v.func, ast.Attribute)):
+            return False
+        f = v.func
+        if f.attr == "warn" and isinstance(f.value, ast.Name) and f.value.id == "warnings":
+            return True
+        if f.attr not in ("debug", "info", "warning", "error", "exception", "critical", "log"):
+            return False
+        b = f.value
+        nm = b.id if isinstance(b, ast.Name) else b.attr if isinstance(b, ast.Attribute) else None
+        return nm in self.LOG_NAMES
+
+    def _message_only(self, node, parents):
+        """the value built at `node` only flows into the text of an exception or of a log record: the enclosing
+        statement is a `raise`, or the node sits inside the argument list of a logging call. Neither can reach the
+        bytes of a compiled font (an exception aborts the compile; a log record is text)."""
+        cur = node
+        while cur in parents:
+            par = parents[cur]
+            if isinstance(par, ast.Raise):
+                return True
+            if self._is_log_call(par) and cur is not par.func:
+                return True
+            if isinstance(par, ast.stmt):
+                return False
+            cur = par
+        return False
+
+    def _log_only_function(self, name, path):
+        """module-level function of the same file whose body is only logging calls (and a docstring)"""
+        tree = self.files[path][1]
+        for n in tree.body:
+            if isinstance(n, ast.FunctionDef) and n.name == name:
+                body = [st for st in n.body if not (isinstance(st, ast.Expr) and isinstance(st.value, ast.Constant))]
+                return bool(body) and all(isinstance(st, ast.Expr) and self._is_log_call(st.value) for st in body)
+            if isinstance(n, ast.ImportFrom) and n.module and any(a.name == name and a.asname in (None, name) for a in n.names):
+                # `from ufo2ft.x.y import name` / `from .y import name`: look the definition up in that module's source
+                if n.level == 0:
+                    if not n.module.startswith("ufo2ft"):
+                        continue
+                    base = "Lib/" + n.module.replace(".", "/")
+                else:
+                    pkg = path.rsplit("/", n.level)[0]
+                    base = pkg + "/" + n.module.replace(".", "/")
+                for cand in (base + ".py", base + "/__init__.py"):
+                    if cand in self.files and cand != path:
+                        return self._log_only_function(name, cand)
+        return False
+
     def classify_comp(self, comp, parents, fi):
         if isinstance(comp, ast.SetComp):
             return "canonical"
+        if self._message_only(comp, parents):
+            return "canonical:message-only"
         par = parents.get(comp)
         if isinstance(par, ast.Call):
             nm = par.func.id if isinstance(par.func, ast.Name) else getattr(par.func, "attr", None)
@@ -298,7 +354,62 @@ class Analyzer:
             return "leak:dict-insertion-order"
         return "leak"
 
-    def classify_for(self, loop, fi):
+    def classify_for(self, loop, fi, parents=None, path=None):
+        parents = parents or {}
+        tgt = loop.target.id if isinstance(loop.target, ast.Name) else None
+        # names assigned inside the body and never used outside the loop: per-iteration temporaries
+        body_nodes = [n for st in loop.body for n in ast.walk(st)]
+        assigned_in_body = {n.id for n in body_nodes if isinstance(n, ast.Name) and isinstance(n.ctx, ast.Store)}
+        in_body = set(map(id, body_nodes))
+        used_outside = {n.id for n in ast.walk(fi.node) if isinstance(n, ast.Name) and id(n) not in in_body and n is not loop.target}
+        temporaries = assigned_in_body - used_outside
+
+        def dominated_elsewhere(name):
+            """every read of `name` outside this loop is preceded, in the same statement list, by a plain
+            assignment to it (so the value left behind by this loop is never read)"""
+            for n in ast.walk(fi.node):
+                if isinstance(n, ast.Name) and n.id == name and isinstance(n.ctx, ast.Load) and id(n) not in in_body:
+                    cur = n
+                    ok = False
+                    while cur in parents and not ok:
+                        par = parents[cur]
+                        for fld in ("body", "orelse", "finalbody"):
+                            blk = getattr(par, fld, None)
+                            if isinstance(blk, list) and cur in blk:
+                                for st in blk[: blk.index(cur)]:
+                                    if isinstance(st, ast.Assign) and len(st.targets) == 1 and isinstance(st.targets[0], ast.Name) and st.targets[0].id == name:
+                                        ok = True
+                        if isinstance(par, (ast.FunctionDef, ast.AsyncFunctionDef, ast.Lambda)):
+                            break
+                        cur = par
+                    if not ok:
+                        return False
+            return True
+
+        temporaries |= {nm for nm in assigned_in_body & used_outside if nm != tgt and dominated_elsewhere(nm)}
+
+        def pure(e):
+            """no call, no walrus, no await/yield: evaluating it has no effect"""
+            return not any(isinstance(n, (ast.Call, ast.NamedExpr, ast.Await, ast.Yield, ast.YieldFrom)) for n in ast.walk(e))
+
+        def only_keyed_by_target(name):
+            """every occurrence of container `name` in the loop body is `tgt in name`, `name[tgt]` or
+            `del name[tgt]`: an iteration only touches the entry of ITS OWN element, and set elements are distinct"""
+            for n in body_nodes:
+                if isinstance(n, ast.Name) and n.id == name:
+                    par = parents.get(n)
+                    if isinstance(par, ast.Subscript) and par.value is n and isinstance(par.slice, ast.Name) and par.slice.id == tgt:
+                        continue
+                    if isinstance(par, ast.Compare) and len(par.ops) == 1 and isinstance(par.ops[0], (ast.In, ast.NotIn)) and par.comparators[0] is n \
+                            and isinstance(par.left, ast.Name) and par.left.id == tgt:
+                        continue
+                    if isinstance(par, ast.For) and par.target is n and n.id != tgt:
+                        continue  # the container itself is the variable of an inner loop (one of several containers)
+                    return False
+            return True
+
+        accumulators = set()
+
         def ok_stmt(s):
             if isinstance(s, (ast.Pass, ast.Continue, ast.Assert, ast.Raise)):
                 return True
@@ -306,13 +417,28 @@ class Analyzer:
                 v = s.value
                 if isinstance(v, ast.Constant):
                     return True
+                if self._is_log_call(v):
+                    return True
+                if isinstance(v, ast.Call) and isinstance(v.func, ast.Name) and path and self._log_only_function(v.func.id, path) \
+                        and all(pure(a) for a in v.args) and all(pure(k.value) for k in v.keywords):
+                    return True
                 if isinstance(v, ast.Call) and isinstance(v.func, ast.Attribute) and v.func.attr in COMMUTING_CALLS:
                     # x.setdefault(k, set()).add(..) is fine for the inner set but inserts k into the dict
                     inner = v.func.value
                     if isinstance(inner, ast.Call) and isinstance(inner.func, ast.Attribute) and inner.func.attr == "setdefault":
                         return False
                     return True
+                if isinstance(v, ast.Call) and isinstance(v.func, ast.Attribute) and v.func.attr in ("append", "extend") and isinstance(v.func.value, ast.Name):
+                    # appending to a local list that is only ever consumed through sorted()/len()/set()/truth tests
+                    accumulators.add(v.func.value.id)
+                    return all(pure(a) for a in v.args)
                 return False
+            if isinstance(s, ast.Delete):
+                # del d[x] for the loop variable x: deletes DISTINCT keys; the order of the remaining keys is unaffected
+                return tgt is not None and all(isinstance(t, ast.Subscript) and isinstance(t.value, ast.Name) and isinstance(t.slice, ast.Name)
+                                               and t.slice.id == tgt and only_keyed_by_target(t.value.id) for t in s.targets)
+            if isinstance(s, ast.Assign) and len(s.targets) == 1 and isinstance(s.targets[0], ast.Name) and s.targets[0].id in temporaries and pure(s.value):
+                return True  # per-iteration temporary computed without effects
             if isinstance(s, ast.If):
                 return all(ok_stmt(x) for x in s.body) and all(ok_stmt(x) for x in s.orelse)
             if isinstance(s, ast.For):
@@ -324,7 +450,54 @@ class Analyzer:
 
         if loop.orelse:
             return "leak"
-        return "commutes" if all(ok_stmt(s) for s in loop.body) else "leak"
+        if not all(ok_stmt(s) for s in loop.body):
+            return "leak"
+        for acc in accumulators:
+            if not self._accumulator_canonical(acc, loop, fi, parents):
+                return "leak"
+        return "commutes"
+
+    def _accumulator_canonical(self, name, loop, fi, parents):
+        """`name` is a local list: bound exactly once in the function, to an empty list, before the loop; apart
+        from `.append/.extend` statements every use is the direct argument of a canonical consumer
+        (sorted/len/set/...), a truth test, or nothing else. Then the order of its elements is never observed."""
+        stores = [n for n in ast.walk(fi.node) if isinstance(n, ast.Name) and n.id == name and isinstance(n.ctx, (ast.Store, ast.Del))]
+        if len(stores) != 1:
+            return False
+        a = fi.node.args
+        if name in {x.arg for x in a.posonlyargs + a.args + a.kwonlyargs} or (a.vararg and a.vararg.arg == name) or (a.kwarg and a.kwarg.arg == name):
+            return False
+        st = parents.get(stores[0])
+        if not (isinstance(st, ast.Assign) and len(st.targets) == 1 and st.targets[0] is stores[0]):
+            return False
+        v = st.value
+        if not ((isinstance(v, ast.List) and not v.elts) or (isinstance(v, ast.Call) and isinstance(v.func, ast.Name) and v.func.id == "list" and not v.args)):
+            return False
+        if st.lineno >= loop.lineno or parents.get(st) is not fi.node and not any(parents.get(st) is p for p in self._ancestors(loop, parents)):
+            return False
+        for n in ast.walk(fi.node):
+            if isinstance(n, ast.Name) and n.id == name and isinstance(n.ctx, ast.Load):
+                par = parents.get(n)
+                if isinstance(par, ast.Attribute) and par.attr in ("append", "extend") and isinstance(parents.get(par), ast.Call) and parents[par].func is par \
+                        and isinstance(parents.get(parents[par]), ast.Expr):
+                    continue
+                if isinstance(par, ast.Call) and n in par.args and len(par.args) == 1 and not par.keywords \
+                        and (par.func.id if isinstance(par.func, ast.Name) else None) in (CANONICAL - {"sum"}):
+                    continue
+                if isinstance(par, (ast.If, ast.While)) and par.test is n:
+                    continue
+                if isinstance(par, ast.UnaryOp) and isinstance(par.op, ast.Not):
+                    continue
+                return False
+        return True
+
+    @staticmethod
+    def _ancestors(node, parents):
+        out = []
+        while node in parents:
+            node = parents[node]
+            out.append(node)
+        return out
 
 
 def load_pins(root):
